@@ -461,6 +461,10 @@ impl RenderNode {
             // boundary (A6): table rows, bodies and cells are only ever estimated through their table //@w
             !(self.info is TableRow) && !(self.info is TableBody) && !(self.info is TableCell), tree_ok(*self), //@w
         ensures good(r, *self, *decorator), //@w @C02 @C07 @C11 @C16 #estimate_records_prefix_width_and_reserves_it
+            // C11: the minimum content width the layout reserves for text is at most the configured minimum wrap width (a freshly computed estimate; a cached one is returned as it is)
+            cached(self.size_estimate) is None && (self.info is Text || self.info is Img) ==> r.min_width <= context.min_wrap_width, //@w @C11 #text_reserves_at_most_min_wrap_width
+            cached(self.size_estimate) is None && self.info is Break ==> r.min_width == 1 && r.size == 1, //@w @C11 #break_reserves_one_column
+            cached(self.size_estimate) is None && self.info is FragStart ==> r.min_width == 0 && r.size == 0, //@w @C11 @C14 #marker_reserves_nothing
         decreases self, 1int, //@w
     {
         proof { reveal_strlit("  "); lemma_sw_le("  "@); assert(sw("  "@) <= 4); } //@w
